@@ -302,7 +302,7 @@ def judge(job, rec, clause=None):
     """None if the oracle (or the given clause of it) holds, else a description."""
     group, origin, kind, desc, text, must = job
     bad_outcomes = ("internal", "timeout", "bad-line", "veneer-active", "crash") if clause is None else CLAUSES[clause]
-    eof_block = rec["outcome"] == "bad-line" and str(rec.get("msg") or "").startswith("expected an indented block after") and rec.get("lineno") == (rec.get("nlines") or 0) + 1
+    eof_block = rec["outcome"] == "bad-line" and str(rec.get("msg") or "").startswith("expected an indented block") and rec.get("lineno") == (rec.get("nlines") or 0) + 1
     if clause == "error_line_inside_the_input" and eof_block:
         return None
     if clause == EOF_BLOCK and not eof_block:
